@@ -339,7 +339,7 @@ fn run_variant(cx: &mut Ctx, origin: &str, vname: &str, src: &str) {
         info: Default::default(),
     };
     w.expr(expr);
-    let all_tokens = w.tokens_in(1, len + 1);
+    let w_ext_root = w.ext(expr.span.end().0);
     let inf = w.info;
     let mut constructs = inf.constructs.clone();
     constructs.sort();
@@ -556,14 +556,26 @@ fn run_variant(cx: &mut Ctx, origin: &str, vname: &str, src: &str) {
         }
 
         // ---- every suggested name is in scope at the offset
-        let field_ctx = inf.field_ctx.iter().any(|(a, b)| *a <= off && off <= *b);
+        // offsets outside the text (0 and len+2) are judged like the nearest offset inside
+        // and so are offsets outside the span of the (possibly partial) AST: text that the
+        // parser's error recovery dropped belongs to no construct
+        let root_lo = expr.span.start().0.max(1);
+        let root_hi = w_ext_root.max(root_lo);
+        let soff = off.clamp(1, len + 1).clamp(root_lo, root_hi);
+        let field_ctx = inf.field_ctx.iter().any(|(a, b)| *a <= soff && soff <= *b);
         for (which, names) in [("suggest", &sugg_default), ("suggest-nofilter", &names_nofilter)] {
+            if field_ctx {
+                // field access / record pattern: the suggestions are fields of a type, not names
+                // in scope; not judged
+                out.count("field-context-offsets(not judged)");
+                continue;
+            }
             if let Some(names) = names {
                 for n in names.iter() {
                     out.count("suggestions");
-                    let ok = inf.in_scope(n, off) || (field_ctx && all_tokens.iter().any(|t| t == n));
+                    let ok = inf.in_scope(n, soff);
                     if !ok {
-                        let class = inf.leak_class(n, off);
+                        let class = inf.leak_class(n, soff);
                         out.oracle_fail(
                             &format!("suggest-out-of-scope:{}", class),
                             &format!(
@@ -644,7 +656,109 @@ const CORPUS: &[&str] = &[
     "match x with |",
 ];
 
+/// `--child screen`: one JSON string (a program text) per stdin line; after each program that
+/// the front end AND the position-search queries at every offset survive (no abort / stack
+/// overflow; ordinary panics are caught) print `ok`. `--child front`: the front end only.
+fn child(mode: &str) {
+    use std::io::{BufRead, Write};
+    install_hook();
+    let stdin = std::io::stdin();
+    let stdout = std::io::stdout();
+    for line in stdin.lock().lines() {
+        let line = line.unwrap();
+        let src: String = match serde_json::from_str(&line) {
+            Ok(s) => s,
+            Err(_) => continue,
+        };
+        let c = gv::catch(|| front::check(&src));
+        if mode == "screen" {
+            if let Ok(Some(c)) = c {
+                let expr = c.expr.expr();
+                let len = src.len() as u32;
+                let span = Span::new(BytePos::from(1), BytePos::from(1 + len));
+                for off in 0..=(len + 2) {
+                    let pos = BytePos::from(off);
+                    let _ = gv::catch(|| {
+                        let _ = completion::find(&c.env, span, expr, pos);
+                        let _ = completion::suggest(&c.env, span, expr, pos);
+                        let _ = completion::signature_help(&c.env, span, expr, pos);
+                    });
+                }
+                let _ = gv::catch(|| completion::all_symbols(span, expr).len());
+            }
+        }
+        let mut o = stdout.lock();
+        writeln!(o, "ok").unwrap();
+        o.flush().unwrap();
+    }
+}
+
+/// Which of `srcs` can be run in-process. A program on which a child aborts is classified by a
+/// second child that runs the front end only.
+fn screen(out: &mut Out, origin: &str, srcs: &[(String, String)]) -> Vec<bool> {
+    use gv::child::Exit;
+    let mut okv = vec![false; srcs.len()];
+    let mut start = 0usize;
+    while start < srcs.len() {
+        let mut input = String::new();
+        for (_, s) in &srcs[start..] {
+            input.push_str(&serde_json::to_string(s).unwrap());
+            input.push('\n');
+        }
+        let r = gv::child::run(&["--child", "screen"], input.as_bytes(), std::time::Duration::from_secs(120));
+        let (stdout, finished) = match &r {
+            Exit::Ok(o) => (o.clone(), true),
+            Exit::Code(_, o, _) | Exit::Signal(_, o, _) | Exit::Timeout(o) => (o.clone(), false),
+        };
+        let n_ok = stdout.lines().filter(|l| *l == "ok").count();
+        for i in 0..n_ok.min(srcs.len() - start) {
+            okv[start + i] = true;
+        }
+        if finished {
+            break;
+        }
+        let bad = start + n_ok;
+        if bad >= srcs.len() {
+            break;
+        }
+        // classify
+        let one = format!("{}\n", serde_json::to_string(&srcs[bad].1).unwrap());
+        let r2 = gv::child::run(&["--child", "front"], one.as_bytes(), std::time::Duration::from_secs(60));
+        match r2 {
+            Exit::Ok(_) => {
+                let what = format!(
+                    "the editor queries abort the process ({}) on a program the front end accepts",
+                    r.class()
+                );
+                out.oracle_fail(
+                    &format!("abort:completion:{}", r.class()),
+                    &what,
+                    serde_json::json!({"src": srcs[bad].1, "pos": 0, "query": "all", "origin": origin, "variant": srcs[bad].0}),
+                );
+            }
+            other => {
+                out.count(&format!(
+                    "front:abort-in-child:{}(skipped; belongs to C09)",
+                    other.class()
+                ));
+                if out.samples.len() < 8 {
+                    out.sample(serde_json::json!({"front_end_abort": srcs[bad].1, "how": other.class()}));
+                }
+            }
+        }
+        start = bad + 1;
+    }
+    okv
+}
+
 fn main() {
+    {
+        let a: Vec<String> = std::env::args().collect();
+        if a.len() >= 3 && a[1] == "--child" {
+            child(&a[2]);
+            return;
+        }
+    }
     let args = Args::parse();
     if std::env::var("C20_LOUD").is_err() {
         install_hook();
@@ -714,8 +828,13 @@ fn main() {
             continue;
         }
         cx.out.count("generated-programs");
-        for (vname, text) in gen::variants(&p) {
-            run_variant(&mut cx, &format!("gen{}", i), &vname, &text);
+        let vs = gen::variants(&p);
+        let origin = format!("gen{}", i);
+        let okv = screen(cx.out, &origin, &vs);
+        for ((vname, text), ok) in vs.iter().zip(okv) {
+            if ok {
+                run_variant(&mut cx, &origin, vname, text);
+            }
         }
     }
     out.finish();
